@@ -396,6 +396,6 @@ func (o *Oracle) RefParse(s string, net Net) {
 }
 
 // N and P of secp256k1 as btcec has them (cross-check of the constants typed into the spec).
-func CurveN() []byte { return pad32(curve.N.Bytes()) }
-func CurveP() []byte { return pad32(curve.P.Bytes()) }
+func CurveN() []byte  { return pad32(curve.N.Bytes()) }
+func CurveP() []byte  { return pad32(curve.P.Bytes()) }
 func CurveGx() []byte { return pad32(curve.Gx.Bytes()) }
